@@ -22,6 +22,7 @@ import (
 	"github.com/olric-data/olric/internal/discovery"
 	"github.com/olric-data/olric/internal/protocol"
 	"github.com/olric-data/olric/internal/stats"
+	"github.com/olric-data/olric/internal/verifhook"
 	"golang.org/x/sync/errgroup"
 )
 
@@ -95,11 +96,13 @@ func (dm *DMap) deleteOnCluster(hkey uint64, key string, f *fragment) error {
 		panic("partition owners list cannot be empty")
 	}
 
+	verifhook.Point(dm.s.rt.This().Name, "del.prev")
 	err := dm.deleteFromPreviousOwners(key, owners)
 	if err != nil {
 		return err
 	}
 
+	verifhook.Point(dm.s.rt.This().Name, "del.backups")
 	if dm.s.config.ReplicaCount != 0 {
 		err := dm.deleteBackupOnCluster(hkey, key)
 		if err != nil {
@@ -107,6 +110,7 @@ func (dm *DMap) deleteOnCluster(hkey uint64, key string, f *fragment) error {
 		}
 	}
 
+	verifhook.Point(dm.s.rt.This().Name, "del.local")
 	err = f.storage.Delete(hkey)
 	if err != nil {
 		return err
